@@ -152,17 +152,21 @@ def run(ctx):
                     reachable.append(q)
         reachable.append(os.path.join(COPY, "prefs.yaml"))
         targets = [(f, k) for f in reachable for k in FAULTS]
+        # the lazily loaded tables and the shared ones first, in both re-pointing orders (a failure in the middle of their load is the delicate
+        # case); then a sample (quick) or every (file, fault) pair (thorough: all four orders for every pair) in a random order
+        must = [(f, k) for f in reachable for k in ("bad_xpath", "truncated", "malformed_entry") if os.path.basename(f) in ("unicode-full.yaml", "unicode.yaml", "definitions.yaml")]
+        forced = [(f, k, o) for f, k in must for o in ("clean-repoint_to_broken-repoint_back", "broken-repoint_to_clean")]
         if ctx.tier == "quick":
-            # the lazily loaded tables and the shared ones first (a failure in the middle of their load is the delicate case), then a sample
-            must = [(f, k) for f in reachable for k in ("bad_xpath", "truncated", "malformed_entry") if os.path.basename(f) in ("unicode-full.yaml", "unicode.yaml", "definitions.yaml")]
-            targets = must + rng.sample(targets, 30)
-        for f, kind in targets:
+            targets = forced + [(f, k, None) for f, k in rng.sample(targets, 30)]
+        else:
+            targets = forced + [(f, k, o) for f, k in targets for o in ("call-fault-call-repair-call", "fault-call-repair-repoint-call", "clean-repoint_to_broken-repoint_back", "broken-repoint_to_clean")]
+        for f, kind, forced_order in targets:
             n_scen += 1
             rel = os.path.relpath(f, COPY)
             orig = open(f, encoding="utf-8").read()
             order = rng.choice(["call-fault-call-repair-call", "fault-call-repair-repoint-call", "clean-repoint_to_broken-repoint_back", "broken-repoint_to_clean"])
-            if ctx.tier == "quick" and n_scen <= len(must):
-                order = ["clean-repoint_to_broken-repoint_back", "broken-repoint_to_clean"][n_scen % 2]
+            if forced_order:
+                order = forced_order
             lines_log = []
 
             def do(reqs):
